@@ -86,20 +86,50 @@ def log_digest(r: dict) -> str:
         "cuts")} | {"m": core.digest(r.get("fin_model"))})
 
 
+N_GEN_C04 = 1200      # C04 universe: corpus + gen(i), i < N_GEN_C04
+C04_SIDS = list(range(8))   # schedules 0..7 of the grid
+
+
+def grid_units(w: str, s: int, n: int) -> list[dict]:
+    """All C04 units of grid point (workload, schedule): every split into 2
+    and 3 chunks when at most SMALL jobs are delivered, one seeded split
+    otherwise.  bias / folder are fixed per grid point."""
+    fl = grid.schedule_flags(s)
+    ndel = n + (1 if fl["dup"] else 0)
+    bias = core.grid("c04-bias", w, s) % 10 < 4
+    folder = core.grid("c04-folder", w, s) % 10 < 3
+    if ndel <= SMALL:
+        return [c04_unit(w, s, list(cuts), bias, folder)
+                for k in (1, 2)
+                for cuts in itertools.combinations(range(1, ndel), k)]
+    return [c04_unit(w, s, None, bias, folder)]
+
+
+def universe():
+    for w in ["corpus:" + f for f in gen_defs.corpus_files()]:
+        yield w
+    for i in range(N_GEN_C04):
+        if not gen_defs.excluded_by(gen_defs.gen_def(i)):
+            yield f"gen:{i}"
+
+
 def build_units(tier, seed, scale, findings):
     nw, ns = SIZES[tier]
     nw = scaled(nw, scale)
     units = []
-    seen = set()
     for f in findings:
-        if f["property"] == PROP and f.get("status") == "known" and f.get(
-                "pin"):
-            p = f["pin"]
-            units.append(c04_unit(p["wid"], p["sid"], cuts=p.get("cuts"),
-                                  bias=p.get("bias", False)))
-    sids_ok = [s for s in range(grid.N_SCHEDULES)]
+        if f["property"] == PROP and f.get("status") == "known":
+            for w, s in f.get("inputs", []):
+                n = n_jobs_of(w)
+                if n:
+                    units += grid_units(w, s, n)
+    r0 = random.Random(core.derive(seed, PROP, "workloads"))
+    wids = list(universe())
+    corpus = [w for w in wids if w.startswith("corpus:")]
+    gens = [w for w in wids if not w.startswith("corpus:")]
+    r0.shuffle(gens)
     count = 0
-    for w in cl.candidate_wids(seed, PROP):
+    for w in corpus + gens:
         if count >= nw:
             break
         n = n_jobs_of(w)
@@ -107,23 +137,16 @@ def build_units(tier, seed, scale, findings):
             continue
         count += 1
         r = random.Random(core.derive(seed, PROP, "sids", w))
-        for s in sorted(r.sample(sids_ok, ns)):
-            fl = grid.schedule_flags(s)
-            ndel = n + (1 if fl["dup"] else 0)
-            bias = r.random() < 0.4
-            folder = r.random() < 0.3
-            if ndel <= SMALL:
-                # exhaustive over split points into 2 and 3 chunks
-                for k in (1, 2):
-                    for cuts in itertools.combinations(range(1, ndel), k):
-                        key = (w, s, cuts, bias)
-                        if key not in seen:
-                            seen.add(key)
-                            units.append(c04_unit(w, s, list(cuts), bias,
-                                                  folder))
-            else:
-                units.append(c04_unit(w, s, None, bias, folder))
-    return units
+        for s in sorted(r.sample(C04_SIDS, min(ns, len(C04_SIDS)))):
+            units += grid_units(w, s, n)
+    seen = set()
+    out = []
+    for u in units:
+        k = (u["wid"], u["sched"], tuple(u["cuts"] or ()))
+        if k not in seen:
+            seen.add(k)
+            out.append(u)
+    return out
 
 
 def main(argv=None):
@@ -187,7 +210,8 @@ def main(argv=None):
                     "log_digest": log_digest(r),
                 })
             for cls in violation_classes(r):
-                key = {"workload": u["wid"], "violation_class": cls}
+                key = {"workload": u["wid"], "schedule": u["sched"],
+                       "violation_class": cls}
                 if core.match_known(PROP, key, run.findings):
                     run.violation(key, "")
                 else:
